@@ -266,7 +266,7 @@ class HitranCIA(CIA):
                     wn_temp.append(float(_wn))
                     _sig = float(_sigma)*1e-10
                     if _sig < 0:
-                        _sig = 0
+                        _sig = 0.0
                     sigma_temp.append(_sig)
 
                 # Ok we're done lets add the sigma
